@@ -27,6 +27,7 @@ var (
 	ErrMismatchingCurrency = errors.New("mismatching currencies")
 
 	ErrInsufficientBalance     = errors.New("insufficient balance")
+	ErrInvalidCoin             = errors.New("invalid coin: unknown currency, missing or negative amount")
 	ErrBalanceErrorAddFailed   = codes.ProtocolError{Code: codes.BalanceErrorAddFailed, Msg: "Failed to add balance to account"}
 	ErrBalanceErrorMinusFailed = codes.ProtocolError{Code: codes.BalanceErrorMinusFailed, Msg: "Failed to minus balance from account"}
 
